@@ -96,6 +96,15 @@ mutual
       have hr := repeatDec_encodeAll (decodeA e) (encode e) (wf e) ovh ih vs rest h3
       have hc := decCount_enc cw vs.length (encodeAllWith (encode e) vs ++ rest) h2
       simp [encode, decodeA, hc, h1, R.map, R.charge, hr]
+    | .listI ovh e, v, rest, h => by
+      cases v <;> simp [wf] at h
+      rename_i vs
+      obtain ⟨h2, h3⟩ := h
+      have ih := fun v rest h => decode_encode e v rest h
+      have hr := repeatDec_encodeAll (decodeA e) (encode e) (wf e) ovh ih vs rest h3
+      have hc := decVarUint_enc vs.length (encodeAllWith (encode e) vs ++ rest) (by omega)
+      have hn : ¬ 2 ^ 63 ≤ vs.length := by omega
+      simp [encode, decodeA, hc, hn, R.map, hr]
     | .tagged tw cs d, v, rest, h => by
       cases v <;> simp [wf] at h
       rename_i t v
@@ -278,6 +287,24 @@ mutual
             exact ⟨⟨by simpa using hlim, c2⟩, b2⟩
           · simp only [canon] at hcan
             simp only [encode, c1, b3 hcan, List.append_assoc]
+    | .listI ovh e, bs, v, rest, h => by
+      simp only [decodeA] at h
+      split at h
+      · simp [R.fail] at h
+      · rename_i n r hc
+        split at h
+        · simp only [R.ok, Option.some.injEq, Prod.mk.injEq] at h
+          obtain ⟨rfl, rfl⟩ := h
+          exact ⟨by simp [wf, allWith], fun hcan => by simp [canon] at hcan⟩
+        · rename_i hn
+          obtain ⟨vs, h1, rfl⟩ := R.map_res_some h
+          have ih := fun bs v rest h => decode_sound e bs v rest h
+          obtain ⟨b1, b2, _⟩ :=
+            repeatDec_sound (decodeA e) (encode e) (wf e) (canon e = true) ovh ih n r vs rest h1
+          subst b1
+          refine ⟨?_, fun hcan => by simp [canon] at hcan⟩
+          simp only [wf, Bool.and_eq_true, decide_eq_true_eq]
+          exact ⟨by omega, b2⟩
     | .tagged tw cs d, bs, v, rest, h => by
       simp only [decodeA] at h
       split at h
@@ -592,6 +619,38 @@ mutual
                 | some L =>
                   simp only [overLimit, decide_eq_true_eq] at hlim
                   exact Nat.mul_le_mul_left _ (by simp only [Option.getD_some]; omega)
+            have e2 : (ovh + dens e) * r.length ≤ D * r.length := Nat.mul_le_mul_right _ (by omega)
+            have e3 : D * r.length ≤ D * bs.length := Nat.mul_le_mul_left _ (by omega)
+            omega
+    | .listI ovh e, D, bs, hb, hD => by
+      simp only [bounded, Bool.and_eq_true, decide_eq_true_eq] at hb
+      obtain ⟨hb1, hb3⟩ := hb
+      simp only [dens] at hD
+      simp only [decodeA, minSize, slack]
+      cases hc : decVarUint bs with
+      | none => exact Good.fail _ _ _ _
+      | some p =>
+        obtain ⟨n, r⟩ := p
+        simp only
+        have hl := decVarUint_length hc
+        by_cases hn : 2 ^ 63 ≤ n
+        · simp only [hn, if_true]
+          refine ⟨fun v rest hr => ?_, fun hnone => by simp [R.ok] at hnone⟩
+          simp only [R.ok, Option.some.injEq, Prod.mk.injEq] at hr
+          obtain ⟨_, rfl⟩ := hr
+          exact ⟨bs.length - r.length, by omega, by omega, by simp [R.ok]⟩
+        · simp only [hn, if_false]
+          have ihe := fun bs => alloc_good e (dens e) bs hb3 (Nat.le_refl _)
+          have hrep := repeatDec_good (decodeA e) ovh (dens e) (minSize e) (slack e) (ovh + dens e)
+            hb1 (Nat.le_refl _) ihe n r
+          have hm := hrep.map Val.list
+          refine ⟨fun v rest hr => ?_, fun hnone => ?_⟩
+          · obtain ⟨c, a1, a2, a3⟩ := hm.1 v rest hr
+            refine ⟨(bs.length - r.length) + c, by omega, by omega, ?_⟩
+            have e2 : (ovh + dens e) * c ≤ D * c := Nat.mul_le_mul_right _ (by omega)
+            have e3 : D * c ≤ D * ((bs.length - r.length) + c) := Nat.mul_le_mul_left _ (by omega)
+            omega
+          · have a := hm.2 hnone
             have e2 : (ovh + dens e) * r.length ≤ D * r.length := Nat.mul_le_mul_right _ (by omega)
             have e3 : D * r.length ≤ D * bs.length := Nat.mul_le_mul_left _ (by omega)
             omega
